@@ -33,6 +33,7 @@ RULE = ('Entry "rebin": Hypothesis generates a filter (2..60 samples, non-negati
         'inside a filter. distinct = distinct canonical JSON.')
 RULE += (' ' + 'Also: integer-typed responses, repeated rebin of one filter object, frequencies re-assigned on a used filter (the next rebin must follow the current curve), per-model wavelength grids incl. same length and end points, stored units, SED files plain / .gz / in sub-directories.')
 RULE += (' ' + 'A twin filter built from the same response array is normalised after the first one.')
+RULE += (' ' + 'A third of the irregular SED grids hold a stretch sampled at 1e-7 .. 5e-6 relative spacing.')
 ASSUMPTIONS = [
     'each R_i is compared with the exact value at 1e-12 x integral(|filter|) (1e-9 for filters read from text / other units)',
     'convolved fluxes at 1e-10 relative to sum|F R| for float64 data, 1e-5 for float32 cubes',
@@ -95,6 +96,12 @@ def irregular_case(draw):
     a = draw(gen.logfloat(1e11, 1e15))
     b = a * draw(gen.logfloat(1.05, 100.))
     sed = draw(gen.increasing(ns, a, b, 1.001))
+    if draw(st.integers(0, 2)) == 0:
+        # a stretch of very fine sampling (a line region resolved at R ~ 1e6 inside a coarse continuum grid): bins only a few
+        # 1e-7 .. 1e-6 of their frequency wide
+        i0 = draw(st.integers(0, len(sed) - 1))
+        eps = draw(gen.logfloat(1e-7, 5e-6))
+        sed = sorted(set(sed + [sed[i0] * (1. + eps * j) for j in range(1, draw(st.integers(2, 8)))]))
     fa = a * draw(gen.logfloat(0.3, 3.))
     fb = fa * draw(gen.logfloat(1.05, 30.))
     fil = draw(gen.increasing(nf, fa, fb, 1.001))
@@ -121,6 +128,8 @@ def run_rebin(case, ctx):
         snu = snu[::-1]
     labels = {'mode_' + case['mode'], 'filter_desc' if case['filter_desc'] else 'filter_asc',
               'sed_desc' if case['sed_desc'] else 'sed_asc'}
+    if any(b / a_ < 1.00001 for a_, b in zip(sorted(case['sed_nu']), sorted(case['sed_nu'])[1:])):
+        labels.add('sed_bins_narrower_than_1e-5')
     exact = case['mode'] == 'lattice' and not case['from_text'] and case['unit'] == 'Hz'
     if case['from_text']:
         labels.add('from_text_file')
@@ -130,7 +139,7 @@ def run_rebin(case, ctx):
             pkgio.write_filter_file(path, 1.25, wav, resp)
             with must_succeed('Filter.read'):
                 f = Filter.read(path)
-        if f.name != 'myfilt' or abs(f.central_wavelength.to(u.micron).value - 1.25) > 1e-12:
+        if f.name != 'myfilt' or not (abs(f.central_wavelength.to(u.micron).value - 1.25) <= 1e-12):
             fail('Filter.read: name %r / central wavelength %r' % (f.name, f.central_wavelength), 'c06:filter_read_meta')
         # the reference works on the frequencies the file actually encodes
         fnu_ref = [om.C_UM_HZ / w for w in wav]
@@ -171,14 +180,14 @@ def run_rebin(case, ctx):
     rtol = 1e-12 if exact else 1e-9
     # (a) every R_i
     for i, (got, want) in enumerate(zip(R, ref)):
-        if abs(got - float(want)) > rtol * tot + 1e-300:
+        if not (abs(got - float(want)) <= rtol * tot + 1e-300):
             fail('R[%d] (bin of nu=%r Hz) = %r, exact integral of the response over that bin = %r (filter integral %r; '
                  'filter %s, SED %s in frequency)' % (i, snu[i], got, float(want), tot,
                                                       'decreasing' if case['filter_desc'] else 'increasing',
                                                       'decreasing' if case['sed_desc'] else 'increasing'), 'c06:bin_integral')
     # (b) sum = integral over the overlap
     over = float(om.overlap_integral(fnu_ref, resp, snu))
-    if abs(sum(R) - over) > 10 * rtol * tot + 1e-300:
+    if not (abs(sum(R) - over) <= 10 * rtol * tot + 1e-300):
         fail('sum of the rebinned response %r != integral of the filter over the overlap %r' % (sum(R), over),
              'c06:sum_not_overlap_integral')
     # (b') the filter object that was just used gets new frequencies with the same number of samples (the band moved to a
@@ -191,13 +200,13 @@ def run_rebin(case, ctx):
         g2 = f.rebin(np.array(snu) * u.Hz)
     ref2, total2 = om.rebin_reference(fnu2, resp, snu)
     for i, (got, want) in enumerate(zip([float(v) for v in g2.response], ref2)):
-        if abs(got - float(want)) > 1e-9 * max(tot, float(total2)) + 1e-300:
+        if not (abs(got - float(want)) <= 1e-9 * max(tot, float(total2)) + 1e-300):
             fail('after the frequencies of a used filter were re-assigned (shifted by 1/1.25), R[%d] = %r but the exact integral of '
                  'the current curve over that bin is %r' % (i, got, float(want)), 'c06:stale_after_nu_assignment')
     with must_succeed('restoring the frequencies and re-binning'):
         f.nu = nu_before
         g3 = f.rebin(np.array(snu) * u.Hz)
-    if any(abs(float(a) - b) > rtol * tot + 1e-300 for a, b in zip(g3.response, R)):
+    if any(not (abs(float(a) - b) <= rtol * tot + 1e-300) for a, b in zip(g3.response, R)):
         fail('after the frequencies were moved and restored the rebinned response differs from the first one', 'c06:stale_after_nu_assignment')
     labels.add('nu_reassigned_on_used_filter')
     # (c) normalised filter inside the SED range returns c for a flat spectrum
@@ -211,14 +220,14 @@ def run_rebin(case, ctx):
             with must_succeed('normalising a second filter built from the same response array'):
                 twin.normalize()
                 gn2 = f.rebin(np.array(snu) * u.Hz)
-            if any(abs(float(a) - float(b)) > 1e-12 * abs(float(b)) + 1e-300 for a, b in zip(gn2.response, gn.response)):
+            if any(not (abs(float(a) - float(b)) <= 1e-12 * abs(float(b)) + 1e-300) for a, b in zip(gn2.response, gn.response)):
                 fail('after a second filter built from the same response array was normalised, the first filter re-bins '
                      'differently (sum %r, was %r)' % (float(np.sum(gn2.response)), float(np.sum(gn.response))),
                      'c06:filters_share_state')
             labels.add('two_filters_from_one_array')
         cflat = 3.25
         val = float(np.sum(cflat * gn.response))
-        if abs(val - cflat) > 1e-9 * cflat:
+        if not (abs(val - cflat) <= 1e-9 * cflat):
             fail('normalised filter inside the SED range: flat spectrum F_nu=%r convolves to %r' % (cflat, val),
                  'c06:flat_spectrum')
         labels.add('filter_inside_sed')
@@ -334,14 +343,14 @@ def run_e2e(case, ctx):
                     if f.get('normalize'):
                         scale /= float(total)
                     want = ref_flux[m][ap]
-                    if abs(got['flux'][row][pos] - want) > rtol * scale + 1e-300:
+                    if not (abs(got['flux'][row][pos] - want) <= rtol * scale + 1e-300):
                         fail('convolved/%s.fits: flux of %s aperture %d is %r, sum F*R = %r (%s format, SEDs stored in %s '
                              'wavelength)' % (f['name'], name, ap, got['flux'][row][pos], want,
                                               'per-file' if fmt == 'v1' else 'cube',
                                               'decreasing' if pkg['storage'] == 'desc' else 'increasing'), 'c06:convolved_flux')
                     wante = ref_err[m][ap]
                     escale = max(wante, 1e-300)
-                    if abs(got['err'][row][pos] - wante) > max(rtol, 1e-9) * escale * 10:
+                    if not (abs(got['err'][row][pos] - wante) <= max(rtol, 1e-9) * escale * 10):
                         fail('convolved/%s.fits: error of %s aperture %d is %r, sqrt(sum (E*R)^2) = %r (%s format)' % (
                             f['name'], name, ap, got['err'][row][pos], wante, 'per-file' if fmt == 'v1' else 'cube'),
                             'c06:convolved_error')
@@ -351,7 +360,7 @@ def run_e2e(case, ctx):
                     m2 = n - 1 - m
                     lin = a * got['flux'][row][pos] + b * res[f['name']]['flux'][got['names'].index(pkg['names'][m2])][pos]
                     gotc = res_c[f['name']]['flux'][row][pos]
-                    if abs(gotc - lin) > max(rtol, 1e-9) * (abs(lin) + scale) * 10:
+                    if not (abs(gotc - lin) <= max(rtol, 1e-9) * (abs(lin) + scale) * 10):
                         fail('convolution is not linear in the SED: conv(aF+bG)=%r, a conv(F)+b conv(G)=%r' % (gotc, lin),
                              'c06:not_linear')
     return labels, nontrivial
